@@ -348,7 +348,11 @@ def main(argv=None):
     ap.add_argument("--json", action="store_true", help="with --replay: print the violation as one JSON line")
     args = ap.parse_args(argv)
     pid = args.property.upper()
-    seed = int(os.environ.get("VERIF_SEED", "1") or "1")
+    raw_seed = (os.environ.get("VERIF_SEED", "1") or "1").strip()
+    try:
+        seed = int(raw_seed)
+    except ValueError:  # any other string is still a reproducible seed
+        seed = int(hashlib.sha256(raw_seed.encode()).hexdigest()[:12], 16)
     t0 = time.time()
 
     try:
